@@ -17,7 +17,7 @@
    The io: [io] = 0 open, 1 close() was called in this operation (IoRef::close = start_shutdown sets only
    IO_STOPPING_FILTERS: is_closed() is still false but with_write_buf refuses, i.e. IoRef::encode is a
    silent no-op returning Ok), 2 closed (is_closed()).  At the end of every operation the connection
-   settles: 1 becomes 2.  The wire is a list of abstract packets (tag, id), not bytes.  The codec keeps its
+   settles: 1 becomes 2.  The wire is a list of abstract packets (tag, id; a DISCONNECT: tag, reason code), not bytes.  The codec keeps its
    own "payload of a streamed PUBLISH still expected" counter [crem] (Codec::encoding_payload), only
    touched when an encode really reaches the codec.
 
@@ -263,8 +263,14 @@ Definition io_terminate (s : sink) : sink := set_io s 2.
 (* is_disconnect_sent: returns the old flag, sets it *)
 Definition disconnect_sent (s : sink) : sink * bool := (set_disc s true, disc s).
 
-(* v3: MqttShared::close();  v5: MqttShared::close(Some(disconnect packet)) *)
-Definition do_close (s : sink) : sink :=
+(* reason codes of the v5 DISCONNECT packets the sink layer writes (a v3 DISCONNECT carries none: 0) *)
+Definition RC_NORMAL : N := 0.        (* DisconnectReasonCode::NormalDisconnection, Disconnect::default() *)
+Definition RC_IMPL : N := 131.        (* DisconnectReasonCode::ImplementationSpecificError (0x83) *)
+
+(* v3: MqttShared::close() -- only a client writes a DISCONNECT, it has no reason code;
+   v5: MqttShared::close(Some(Disconnect { reason_code: reason, .. })).  The second slot of the DISCONNECT wire
+   entry is the reason code *)
+Definition do_close (s : sink) (reason : N) : sink :=
   if ver s =? 3 then
     let s1 :=
       if client s then
@@ -279,7 +285,7 @@ Definition do_close (s : sink) : sink :=
       if is_closed s then s
       else
         let '(s0, sent) := disconnect_sent s in
-        let s0' := if sent then s0 else fst (enc_packet s0 W_DISCONNECT 0) in
+        let s0' := if sent then s0 else fst (enc_packet s0 W_DISCONNECT reason) in
         io_close s0' in
     clear_queues s1.
 
@@ -336,18 +342,20 @@ Definition pkt_ack_inner (s : sink) (k id : N) : sink * bool :=
   | [] => (s, false)
   end.
 
-(* pkt_ack = pkt_ack_inner(..).inspect_err(|_| self.close(..)) *)
+(* pkt_ack = pkt_ack_inner(..).inspect_err(|_| self.close(..)); v5: close(Some(Disconnect { reason_code:
+   ImplementationSpecificError, .. })) *)
 Definition pkt_ack (s : sink) (k id : N) : sink :=
   let '(s1, ok) := pkt_ack_inner s k id in
-  if ok then s1 else do_close s1.
+  if ok then s1 else do_close s1 RC_IMPL.
 
 (* the dispatcher receives one acknowledgement from the peer.  A server dispatcher ignores SUBACK/UNSUBACK
    (`Decoded::Packet(..) => Ok(None)`); once the io is closed nothing is read any more; packet id 0 does not
-   decode: protocol error, the connection is closed by the control path (v5: with a DISCONNECT) *)
+   decode (DecodeError::MalformedPacket): protocol error, the connection is closed by the control path (v5: with
+   the DISCONNECT Disconnect::from_proto_error gives for it: ImplementationSpecificError) *)
 Definition ack_one (s : sink) (k id : N) : sink :=
   if negb (io s =? 0) then s
   else if (k =? 0) || (5 <? k) then s
-  else if id =? 0 then do_close s
+  else if id =? 0 then do_close s RC_IMPL
   else if ((k =? 4) || (k =? 5)) && negb (client s) then s
   else pkt_ack s k id.
 
@@ -790,7 +798,7 @@ Definition sink_step (s : sink) (o : op) : sink :=
   | ODropReceipt t => drop_receipt s t
   | OWrb on => do_wrb s on
   | OSetCap n => do_set_cap s n
-  | OClose => do_close s
+  | OClose => do_close s RC_NORMAL                 (* v5: close(Some(Disconnect::default())) *)
   | OForceClose => do_force_close s
   | OSetIdx n => set_idx s n
   | OChunk t n => chunk_task s t n
